@@ -147,3 +147,15 @@ impl PutToTargetPeersContext {
         }
     }
 }
+
+#[cfg(feature = "verif")]
+impl PutToTargetPeersContext {
+    /// Verification hook: `(pending_peers, n_succeeded, peers_to_succeed)`.
+    pub fn verif_tracking(&self) -> (Vec<PeerId>, usize, usize) {
+        (
+            self.pending_peers.iter().copied().collect(),
+            self.n_succeeded,
+            self.peers_to_succeed,
+        )
+    }
+}
